@@ -26,6 +26,9 @@
 (*             `Emit` prints it: constructor, the three texts, and the     *)
 (*             replay steps with the expected observations.  BFS = all     *)
 (*             data within NODES nodes over the leaf alphabet LEAFSET.     *)
+(*  "esc":     the escape-syntax generator: context x syntax x hex digits;  *)
+(*             the spec decides which character the text denotes or that  *)
+(*             it must be rejected (too many digits, > U+10FFFF, surrogate)*)
 (*  "strings": the Strings generator: one symbol of the delimiter-heavy    *)
 (*             alphabet is appended per step; every visited state is a     *)
 (*             case (totality: the reader/parser must accept or reject it).*)
@@ -61,7 +64,7 @@
 (***************************************************************************)
 EXTENDS Integers, Sequences, TLC, Json, FiniteSets
 
-CONSTANTS MODE,      \* "data" | "strings"
+CONSTANTS MODE,      \* "data" | "strings" | "esc"
           NODES,     \* data: maximal number of nodes of a datum
           LEAFSET,   \* data: "full" | "mid" | "core" | "prog" | "midq" | "coreq"
           MAXLEN,    \* strings: maximal length
@@ -108,9 +111,44 @@ PadTo(s, n) == IF Len(s) >= n THEN s ELSE PadTo(<<48>> \o s, n)
 RECURSIVE DecOf(_)
 DecOf(n) == IF n < 10 THEN <<48 + n>> ELSE DecOf(n \div 10) \o <<48 + (n % 10)>>
 
-\* Graphic characters of the code points this module uses (a visible glyph that is
-\* neither white space nor a control / combining character).
-Graphic(c) == c \in 33..126 \/ c \in {233, 955, 128512}
+\* The code points this module uses and what the reader / writer have to distinguish about them.
+\* BOUNDARIES: for every hex-digit length 1..6 the smallest and the largest code point of that
+\* length, and the neighbours of the surrogate gap D800..DFFF (which holds no character).
+HexLenBounds == {0, 15, 16, 255, 256, 4095, 4096, 65535, 65536, 1048575, 1048576, 1114111}
+SurrogateNeighbours == {55295, 57344}                      \* U+D7FF, U+E000
+MaxScalar == 1114111                                        \* U+10FFFF
+IsSurrogate(v) == v \in 55296..57343
+
+\* Unicode general category (UnicodeData) of every non-ASCII code point used here.
+\* GRAPHIC = a visible glyph of its own: categories L*, N*, P*, S* (and ASCII 33..126).
+\* NOT graphic: Cc control, Cf format, Co private use, Cn unassigned / noncharacter, Z* separators,
+\* Mn / Me combining marks (they extend the preceding grapheme).
+GraphicNonAscii ==
+  { 233,      \* U+00E9  Ll  e-acute
+    255,      \* U+00FF  Ll  y-diaeresis          largest 2-digit
+    256,      \* U+0100  Lu  A-macron             smallest 3-digit
+    955,      \* U+03BB  Ll  lambda
+    4096,     \* U+1000  Lo  MYANMAR LETTER KA    smallest 4-digit
+    65536,    \* U+10000 Lo  LINEAR B SYLLABLE    smallest 5-digit (plane 1)
+    128512,   \* U+1F600 So  emoji                (plane 1)
+    131072 }  \* U+20000 Lo  CJK ideograph        (plane 2)
+NonGraphicNonAscii ==
+  { 160,      \* U+00A0  Zs  no-break space
+    173,      \* U+00AD  Cf  soft hyphen
+    769,      \* U+0301  Mn  combining acute
+    4095,     \* U+0FFF  Cn  unassigned           largest 3-digit
+    8232,     \* U+2028  Zl  line separator
+    55295,    \* U+D7FF  Cn  unassigned           last before the surrogates
+    57344,    \* U+E000  Co  private use          first after the surrogates
+    63743,    \* U+F8FF  Co  private use          (end of the BMP private-use area)
+    65535,    \* U+FFFF  Cn  noncharacter         largest 4-digit
+    917505,   \* U+E0001 Cf  language tag         (plane 14)
+    917760,   \* U+E0100 Mn  variation selector   (plane 14)
+    983040,   \* U+F0000 Co  private use          (plane 15)
+    1048575,  \* U+FFFFF Cn  noncharacter         largest 5-digit (plane 15)
+    1048576,  \* U+100000 Co private use          smallest 6-digit (plane 16)
+    1114111 } \* U+10FFFF Cn noncharacter         largest scalar value
+Graphic(c) == c \in 33..126 \/ c \in GraphicNonAscii
 
 IsDigit(c) == c \in 48..57
 Digs(ds) == [i \in 1..Len(ds) |-> 48 + ds[i]]                 \* digit values -> text
@@ -399,12 +437,17 @@ NumLeaves ==
     InfD(FALSE), InfD(TRUE) }
 
 CharLeaves == { CharD(c) : c \in {97, 65, 120, 117, 49, 32, 10, 9, 0, 13, 7, 8, 127, 27, 40, 41, 34, 92, 35, 59, 39,
-                                   124, 955, 233, 128512, 769} }
+                                   124, 955, 233, 128512, 769}
+                                  \cup HexLenBounds \cup GraphicNonAscii \cup NonGraphicNonAscii }
 
 StrLeaves ==
   { StrD(<< >>), StrT(<<"a">>), StrT(<<"a"," ","b">>), StrD(<<10, 9, 92, 34>>), StrD(<<955>>), StrD(<<233, 128512>>),
     StrD(<<7>>), StrD(<<0>>), StrD(<<127>>), StrD(<<13>>), StrD(<<27, 8>>), StrD(<<101, 769>>),
-    StrT(<<"a",";","b">>), StrT(<<"(">>), StrT(<<"|">>), StrT(<<"'">>), StrT(<<"#","\\","a">>), StrT(<<"x","4","1",";">>) }
+    StrT(<<"a",";","b">>), StrT(<<"(">>), StrT(<<"|">>), StrT(<<"'">>), StrT(<<"#","\\","a">>), StrT(<<"x","4","1",";">>),
+    \* an escape followed by hex digits / a letter (where does the escape end?), mixed planes
+    StrD(<<1048576, 97>>), StrD(<<65, 1114111, 48>>), StrD(<<15, 102>>), StrD(<<65535, 65536, 1048575, 1048576>>),
+    StrD(<<255, 256, 4095, 4096>>) }
+  \cup { StrD(<<c>>) : c \in HexLenBounds \cup GraphicNonAscii \cup NonGraphicNonAscii }
 
 SymLeaves ==
   { SymT(<<"a">>), SymT(<<"a","b","c">>), SymT(<<"a"," ","b">>), SymD(<< >>), SymT(<<"a","(","b">>), SymT(<<"a",")">>),
@@ -414,7 +457,8 @@ SymLeaves ==
     SymT(<<"1","/","2">>), SymT(<<"-","1",".","5">>), SymT(<<"+","i","n","f",".","0">>), SymT(<<"1","e","3">>),
     SymT(<<"a","\\","b">>), SymT(<<"i","f">>), SymT(<<"q","u","o","t","e">>), SymT(<<"d","e","f","i","n","e">>),
     SymT(<<"l","a","m","b","d","a">>), SymD(<<955>>), SymD(<<97, 10, 98>>), SymT(<<"[">>), SymT(<<"{","a","}">>),
-    SymT(<<"a",",","b">>), SymT(<<"`","a">>), SymT(<<"f","n">>) }
+    SymT(<<"a",",","b">>), SymT(<<"`","a">>), SymT(<<"f","n">>), SymD(<<256>>), SymD(<<4096, 65536>>) }
+  \cup { SymD(<<97, c>>) : c \in {15, 160, 255, 256, 4095, 65535, 65536, 131072, 1048575, 1048576, 1114111, 55295, 57344} }
 
 OtherLeaves == { BoolD(TRUE), BoolD(FALSE), NilD, BytesD(<< >>), BytesD(<<0, 255, 16>>), BytesD(<<1>>) }
 
@@ -435,7 +479,8 @@ MidQLeaves ==
     DecD(TRUE, <<0>>, <<0>>), BoolD(TRUE), CharD(97), CharD(40), CharD(955),
     StrD(<< >>), StrT(<<"a"," ","b">>), StrD(<<10, 9, 92, 34>>),
     SymT(<<"a">>), SymT(<<"a"," ","b">>), SymD(<< >>), SymT(<<"1","2">>), SymT(<<".">>),
-    SymT(<<"+","a">>), SymT(<<"q","u","o","t","e">>), NilD, BytesD(<<0, 255, 16>>) }
+    SymT(<<"+","a">>), SymT(<<"q","u","o","t","e">>), NilD, BytesD(<<0, 255, 16>>),
+    CharD(1048576), StrD(<<1048576, 97>>) }
 CoreQLeaves ==
   { I(FALSE, <<1>>), DecD(FALSE, <<1>>, <<5>>), CharD(97), StrT(<<"a"," ","b">>), SymT(<<"a">>), SymT(<<"a"," ","b">>), NilD }
 
@@ -511,8 +556,76 @@ StrNext == /\ Len(txt) < MAXLEN
            /\ UNCHANGED <<stack, nodes>>
 
 -----------------------------------------------------------------------------
+(* The escape-syntax generator (MODE = "esc").  One step: choose a context (character literal,  *)
+(* string, |symbol|), an escape syntax and a hex-digit string; the spec DECIDES whether the text *)
+(* denotes a character (then which one) or must be rejected.                                     *)
+(*   syntaxes: "x"  \x<hex>;   #\x<hex>        R7RS                                             *)
+(*             "u"  \u<hex>;   #\u<hex>        Steel extension (maintainer test lexer.rs:1129)  *)
+(*             "ub" \u{<hex>}  #\u{<hex>}      Steel extension (what its writer prints)         *)
+(*             "xn" \x<hex>  without the terminating ; (strings / symbols): always an error      *)
+(* <hex> is any number of hex digits, either case, leading zeros allowed; it must denote a      *)
+(* Unicode scalar value: at most U+10FFFF and not a surrogate (R7RS 6.6 / 7.1.1).               *)
+
+HexDigVal(c) == IF c \in 48..57 THEN c - 48 ELSE IF c \in 97..102 THEN c - 87
+                ELSE IF c \in 65..70 THEN c - 55 ELSE -1
+IsHex(h) == Len(h) > 0 /\ \A i \in 1..Len(h) : HexDigVal(h[i]) >= 0
+RECURSIVE StripLeadingZeros(_)
+StripLeadingZeros(h) == IF Len(h) > 1 /\ h[1] = 48 THEN StripLeadingZeros(Tail(h)) ELSE h
+RECURSIVE HexNum(_)
+HexNum(h) == IF h = << >> THEN 0 ELSE 16 * HexNum(SubSeq(h, 1, Len(h) - 1)) + HexDigVal(h[Len(h)])
+\* the scalar value a hex-digit string denotes, -1 if none (no digits, a non-digit, more than six
+\* significant digits, beyond U+10FFFF, a surrogate)
+ScalarOf(h) == IF ~IsHex(h) THEN -1
+               ELSE LET z == StripLeadingZeros(h) IN
+                    IF Len(z) > 6 THEN -1
+                    ELSE LET v == HexNum(z) IN IF v > MaxScalar \/ IsSurrogate(v) THEN -1 ELSE v
+
+RECURSIVE HexUp(_)
+HexUp(n) == IF n < 16 THEN <<HexDigitU(n)>> ELSE HexUp(n \div 16) \o <<HexDigitU(n % 16)>>
+
+EscCodePoints == HexLenBounds \cup SurrogateNeighbours \cup {65, 233, 955, 128512, 160}
+\* minimal digits in both cases, zero-padded to 6 and to 8 digits
+GoodHex == UNION { { Hex(c), HexUp(c), PadTo(Hex(c), 6), PadTo(HexUp(c), 8) } : c \in EscCodePoints }
+BadHex == { << >>,                                                 \* no digit
+            T(<<"g">>), T(<<"4","g">>), T(<<"4","1","-">>),        \* not a hex digit
+            T(<<"D","8","0","0">>), T(<<"d","f","f","f">>), T(<<"0","0","D","8","0","0">>),   \* surrogates
+            T(<<"1","1","0","0","0","0">>), T(<<"0","0","1","1","0","0","0","0">>),           \* > U+10FFFF
+            T(<<"F","F","F","F","F","F">>), T(<<"F","F","F","F","F","F","F","F">>),
+            T(<<"1","0","0","0","0","0","0","0","0">>),            \* 2^32: wraps to 0 in 32 bits
+            T(<<"1","0","0","0","0","0","0","4","1">>),            \* 2^32 + 0x41
+            T(<<"0","0","0","0","0","0","0","0","4","1">>) }       \* ten digits, value 0x41: legal
+HexForms == GoodHex \cup BadHex
+
+EscBody(syn, h) == CASE syn = "x"  -> <<92, 120>> \o h \o <<59>>
+                     [] syn = "u"  -> <<92, 117>> \o h \o <<59>>
+                     [] syn = "ub" -> <<92, 117, 123>> \o h \o <<125>>
+                     [] syn = "xn" -> <<92, 120>> \o h
+EscCharBody(syn, h) == CASE syn = "x"  -> <<120>> \o h
+                         [] syn = "u"  -> <<117>> \o h
+                         [] syn = "ub" -> <<117, 123>> \o h \o <<125>>
+EscText(r) == CASE r.ctx = "str"  -> DQ \o EscBody(r.syn, r.hex) \o DQ
+                [] r.ctx = "sym"  -> BAR \o EscBody(r.syn, r.hex) \o BAR
+                [] r.ctx = "strf" -> DQ \o <<48>> \o EscBody(r.syn, r.hex) \o <<102>> \o DQ     \* "0<esc>f": hex digits around
+                [] r.ctx = "symf" -> BAR \o <<97>> \o EscBody(r.syn, r.hex) \o <<102>> \o BAR
+                [] r.ctx = "char" -> HashBs \o EscCharBody(r.syn, r.hex)
+\* the code point the text denotes, -1 = the text must be rejected
+EscValue(r) == IF r.syn = "xn" \/ (STRICT /\ r.syn # "x") THEN -1
+               ELSE IF r.ctx = "char" /\ r.hex = << >> /\ r.syn = "x" THEN 120      \* #\x is the letter x
+               ELSE IF r.ctx = "char" /\ r.hex = << >> /\ r.syn = "u" THEN 117      \* #\u is the letter u
+               ELSE ScalarOf(r.hex)
+EscDatum(r) == LET v == EscValue(r) IN
+               CASE r.ctx = "str" -> StrD(<<v>>) [] r.ctx = "sym" -> SymD(<<v>>) [] r.ctx = "char" -> CharD(v)
+                 [] r.ctx = "strf" -> StrD(<<48, v, 102>>) [] r.ctx = "symf" -> SymD(<<97, v, 102>>)
+
+EscNext == /\ stack = << >>
+           /\ \E ctx \in {"str", "sym", "char", "strf", "symf"}, syn \in {"x", "u", "ub", "xn"}, h \in HexForms :
+                 /\ ~(ctx = "char" /\ syn = "xn")
+                 /\ stack' = << [k |-> "esc", ctx |-> ctx, syn |-> syn, hex |-> h] >>
+           /\ UNCHANGED <<nodes, txt>>
+
+-----------------------------------------------------------------------------
 Init == stack = << >> /\ nodes = 0 /\ txt = << >>
-Next == IF MODE = "data" THEN DataNext ELSE StrNext
+Next == CASE MODE = "data" -> DataNext [] MODE = "esc" -> EscNext [] OTHER -> StrNext
 Spec == Init /\ [][Next]_vars
 
 TypeOK == /\ nodes \in 0..NODES
@@ -566,7 +679,12 @@ CaseOf(d) ==
      \* ... and so does the compiler's reader (quote)
      QuoteStep("q-ext", d, Ext(d)), QuoteStep("q-alt1", d, Alt(d, 1)), QuoteStep("q-alt2", d, Alt(d, 2)) >>]
 
-Emit == IF MODE = "data"
-        THEN (Len(stack) = 1 => PrintT(<<"REPLAY", ToJson(CaseOf(stack[1]))>>))
-        ELSE PrintT(<<"REPLAY", ToJson([kind |-> "text", text |-> txt])>>)
+EscCaseOf(r) ==
+  LET ok == EscValue(r) >= 0  t == EscText(r) IN
+  [kind |-> "esc", accept |-> ok, ctx |-> r.ctx, syn |-> r.syn, text |-> t,
+   steps |-> IF ok THEN << ReadStep("rd-esc", EscDatum(r), t), QuoteStep("q-esc", EscDatum(r), t) >> ELSE << >>]
+
+Emit == CASE MODE = "data" -> (Len(stack) = 1 => PrintT(<<"REPLAY", ToJson(CaseOf(stack[1]))>>))
+          [] MODE = "esc"  -> (Len(stack) = 1 => PrintT(<<"REPLAY", ToJson(EscCaseOf(stack[1]))>>))
+          [] OTHER -> PrintT(<<"REPLAY", ToJson([kind |-> "text", text |-> txt])>>)
 =============================================================================
